@@ -421,6 +421,7 @@ F_LINES = {
     "C10": {"P", "T", "R"},
     "C14": {"P", "T"},
     "C15": {"S", "W", "P", "T", "CRASH"},
+    "C16": {"K", "P", "T", "D"},
     "C17": {"NODE"},
     "C18": {"NODE", "EDGE", "R"},
     "C19": {"G", "P", "T", "D", "R", "S", "W", "NODE", "EDGE", "CRASH", "EXHAUSTED"},
@@ -518,7 +519,7 @@ def _conv_worker(args):
 
 
 def run_factory(pid, tier, seed):
-    n = 1600 if tier == "quick" else 48000
+    n = 3200 if tier == "quick" else 48000
     shards = 16
     corpus = load_corpus("factory", None)
     jobs = [(pid, n // shards, seed * 131 + k, corpus if k == 0 else []) for k in range(shards)]
